@@ -84,8 +84,10 @@ CLAIMS = {
        "their deadline; ares_send_query registers a future deadline; and the event-thread wake obligation (registering the "
        "earliest deadline must fire a wake path) with the event thread's callbacks as recorders.",
   design="DESIGN.md §4 C07",
-  note="Kernel wake-up and wall-clock liveness are outside solver reach; the event loop's ms conversion and the per-backend "
-       "wait() conversions are not yet covered. Known finding evthread_idle_conn_nowake is reported."),
+  note="Kernel wake-up and wall-clock liveness are outside solver reach. One event-thread loop iteration (ms conversion, "
+       "evloop_step) and the real epoll/poll/select wait() conversions (backend_wait_*, system call = recording stub) are "
+       "covered; kqueue/win32 backends are not built on this platform. Findings evthread_idle_conn_nowake (bcf9263) and "
+       "backend_timeout_int_overflow (67dedc2) were repaired."),
  "C09": dict(
   text="Bounded model checking (CBMC): the server comparator is a strict weak order on (failures, config index) for all "
        "values; failure/success bookkeeping re-sorts and demotes/restores; probes are separate NOCACHE|NORETRY requests to a "
